@@ -370,6 +370,16 @@ class DocGen:
             else:
                 src, exp = str(v), ("number", str(v))
             ms.append(self._mk(o, (name, m), src, "const", exp))
+        if self.p_dynamic and tag == "font":   # only QFont members have read/write functions in the type information
+            for m in ms:
+                if rng.random() < self.p_dynamic * 0.6:
+                    if m.expect and m.expect[0] == "bool" and self.sources["bool"]:
+                        m.src, m.vkind, m.expect, m.surface = rng.choice(self.sources["bool"]), "dynamic", None, "header"
+                    elif m.expect and m.expect[0] == "number" and self.sources["int"] and tag != "sizepolicy":
+                        m.src, m.vkind, m.expect, m.surface = rng.choice(self.sources["int"]), "dynamic", None, "header"
+                    elif m.expect and m.expect[0] == "string" and self.sources["QString"]:
+                        m.src, m.vkind, m.expect, m.surface = rng.choice(self.sources["QString"]), "dynamic", None, "header"
+                        m.strings = []
         g = Group(name, tag, ms, "dotted" if (dotted if dotted is not None else rng.random() < 0.5) else "grouped")
         g.owner = o
         return g
@@ -452,7 +462,7 @@ class DocGen:
                 ms.append(("bold", ("true", ("bool", "true"))))
             g = self._group(o, name, "font", ms)
             for m in g.members:
-                if m.expect[0] == "string":
+                if m.expect and m.expect[0] == "string":
                     m.strings = [(m.expect[1], "font")]
             return g
         if t == "QSizePolicy" and self.groups:
@@ -485,7 +495,8 @@ class DocGen:
                 ms.append(("normalOff", ('"a.png"', ("child", "normaloff", "a.png"))))
             g = self._group(o, name, "iconset", ms)
             for m in g.members:
-                m.strings = [(m.expect[2], "icon")]
+                if m.expect:
+                    m.strings = [(m.expect[2], "icon")]
             return g
         if t == "QPalette" and self.groups:
             roles = ["window", "windowText", "base", "text", "button", "buttonText", "highlight", "link", "mid", "dark"]
@@ -638,7 +649,7 @@ class DocGen:
                 continue
             sets = [tuple(a["type"] for a in m.get("arguments", [])) for (_, m, _) in ms]
             longest = max(sets, key=len)
-            simple = all(t in ("bool", "int", "uint", "double", "QString") or (t.endswith("*") and t[:-1] in self.cat.by)
+            simple = all(t in ("bool", "int", "uint", "double", "QString") or t in ("QWidget*", "QAction*", "QAbstractButton*", "VfWidget*")
                          for t in longest)
             if simple and all(longest[:len(s)] == s for s in sets):
                 cands.append((n, longest))
